@@ -229,12 +229,13 @@ PROPS = {
                                        "C11.V.init_recurse.distinct_actions", "C11.V.init_recurse.records_infoset", "C11.V.init_recurse.recall_bookkeeping",
                                        "C11.V.init_recurse.empty_chance", "C11.V.init_recurse.single_outcome_elided", "C11.V.init_recurse.empty_player", "C11.V.init_recurse.player_dispatch",
                                        "C11.V.init_recurse.single_action_same", "C11.V.init_recurse.single_action_recorded_once", "C11.V.init_recurse.actions_and_children_paired"]),
+               U("c11_chance_normalise", ["C11.V.init_recurse.chance_probabilities_normalised"]),
                U("c11_compact", ["C11.V.compact.entry_index", "C11.V.compact.insert_returns_index", "C11.V.compact.get_returns_index", "C11.V.compact.dense_preserved", "C11.V.compact.new_dense"]),
                U("c11_constructors", ["C11.V.constructors.chance_infoset", "C11.V.constructors.chance_node", "C11.V.constructors.player_builder", "C11.V.constructors.player_infoset", "C11.V.constructors.num_actions"])],
         kani_functions=[],
         trusted_base=["uninterpreted float semantics + IEEE classification facts (Kani harness ieee_classification)",
                       "assumed contracts on compact::{OccupiedEntry, VacantEntry} (IndexMap), std HashMap::entry (prophecy of the entry's use), slice comparison, HashSet::len of collected references, == of user label types being equality"],
-        not_decided=["composition over the tree (succeeds iff every node satisfies every rule)", "never panics", "chance weight renormalisation", "from_root's conversion of the builders"],
+        not_decided=["composition over the tree (succeeds iff every node satisfies every rule)", "never panics", "from_root's conversion of the builders", "the chance-infoset OptBuilder"],
     ),
     "C13": dict(
         level="proof",
